@@ -46,8 +46,10 @@ impl<SlotType: Copy+Debug, const BUFFER_SIZE: usize, const METRICS: bool, const 
     fn push(&self, element: SlotType) -> bool {
         let mutable_self = unsafe { &mut *(*(self as *const Self as *const std::cell::UnsafeCell<Self>)).get() };
         loop {
+            #[cfg(feature = "verif")] crate::verif::point(crate::verif::STACK_BEFORE_SWAP);
             let in_use = self.flag.swap(true, Ordering::Acquire);
             if !in_use {
+                #[cfg(feature = "verif")] crate::verif::point(crate::verif::STACK_LOCKED);
                 if self.head >= BUFFER_SIZE as u32 {
                     // stack is full
                     self.flag.store(false, Ordering::Relaxed);
@@ -57,7 +59,9 @@ impl<SlotType: Copy+Debug, const BUFFER_SIZE: usize, const METRICS: bool, const 
                     return false;
                 }
                 mutable_self.buffer[self.head as usize] = element;
+                #[cfg(feature = "verif")] crate::verif::point(crate::verif::STACK_BEFORE_HEAD_UPDATE);
                 mutable_self.head += 1;
+                #[cfg(feature = "verif")] crate::verif::point(crate::verif::STACK_BEFORE_RELEASE);
                 self.flag.store(false, Ordering::Release);
                 if METRICS {
                     self.push_count.fetch_add(1, Ordering::Relaxed);
@@ -70,6 +74,7 @@ impl<SlotType: Copy+Debug, const BUFFER_SIZE: usize, const METRICS: bool, const 
             if METRICS {
                 self.push_collisions.fetch_add(1, Ordering::Relaxed);
             }
+            #[cfg(feature = "verif")] crate::verif::spin(crate::verif::STACK_SPIN);
             std::hint::spin_loop();
         }
     }
@@ -78,8 +83,10 @@ impl<SlotType: Copy+Debug, const BUFFER_SIZE: usize, const METRICS: bool, const 
     fn pop(&self) -> Option<SlotType> {
         let mutable_self = unsafe { &mut *(*(self as *const Self as *const std::cell::UnsafeCell<Self>)).get() };
         loop {
+            #[cfg(feature = "verif")] crate::verif::point(crate::verif::STACK_BEFORE_SWAP);
             let in_use = self.flag.swap(true, Ordering::Acquire);
             if !in_use {
+                #[cfg(feature = "verif")] crate::verif::point(crate::verif::STACK_LOCKED);
                 if self.head == 0 {
                     // empty stack
                     self.flag.store(false, Ordering::Relaxed);
@@ -89,7 +96,9 @@ impl<SlotType: Copy+Debug, const BUFFER_SIZE: usize, const METRICS: bool, const 
                     return None;
                 }
                 mutable_self.head -= 1;
+                #[cfg(feature = "verif")] crate::verif::point(crate::verif::STACK_BEFORE_HEAD_UPDATE);
                 let element = self.buffer[self.head as usize];
+                #[cfg(feature = "verif")] crate::verif::point(crate::verif::STACK_BEFORE_RELEASE);
                 self.flag.store(false, Ordering::Release);
                 if METRICS {
                     self.pop_count.fetch_add(1, Ordering::Relaxed);
@@ -102,6 +111,7 @@ impl<SlotType: Copy+Debug, const BUFFER_SIZE: usize, const METRICS: bool, const 
             if METRICS {
                 self.pop_collisions.fetch_add(1, Ordering::Relaxed);
             }
+            #[cfg(feature = "verif")] crate::verif::spin(crate::verif::STACK_SPIN);
             std::hint::spin_loop();
         }
     }
